@@ -93,7 +93,7 @@ class EarthDriver:
             # (step/2 x surface density at each end) -- the discretisation error the property allows
             slack = 100.0 * s * 3.0 + 1e-10 * abs(p)
             if last['rel'] == 'eq':
-                if abs(c - p) > slack:
+                if not (abs(c - p) <= slack):
                     raise Divergence(self.where(st, s) + ' after %s' % last['op'], p, c)
             elif c < p - slack:
                 raise Divergence(self.where(st, s) + ' after dipping deeper', '>= %r' % p, c)
@@ -132,5 +132,5 @@ class EarthDriver:
             self.cmp(r, w, float(g), form)
 
     def cmp(self, r, w, g, form):
-        if abs(g - w) > 1e-12 * max(abs(w), 1.0):
+        if not (abs(g - w) <= 1e-12 * max(abs(w), 1.0)):
             raise Divergence('%s density(%d m) [%s input]' % (self.name, r, form), w, g)
